@@ -81,6 +81,9 @@ DC_SPECS = {
     # tuple + struct input, defaults
     'dc_both': dict(name='DcBoth', opts={'in_format': ['tuple', 'struct']},
                     fields=[_f('a', 'int'), _f('b', 'str', ['value', "'x'"])]),
+    # tuple layout whose positional fields are strings (a str datum must not bind character-wise)
+    'dc_strs': dict(name='DcStrs', opts={'in_format': ['tuple', 'struct']},
+                    fields=[_f('a', 'str'), _f('b', 'str', ['value', "'z'"])]),
     # defaults only
     'dc_defaults': dict(name='DcDefaults', opts={},
                         fields=[_f('a', 'int', ['value', '3']), _f('b', 'float', ['value', '5.0'])]),
